@@ -114,7 +114,7 @@ fn vec_i64(v: &Value) -> Vec<i64> {
     v.as_array().map(|a| a.iter().map(|x| x.as_i64().unwrap()).collect()).unwrap_or_default()
 }
 
-fn replay_one<W: TW>(beh: &Value, m: i64, st: &mut ReplayStats, do_sweep: bool) {
+fn replay_one<W: TW>(beh: &Value, m: i64, st: &mut ReplayStats, do_sweep: bool, c10_mode: bool) {
     let steps = beh.as_array().unwrap();
     // is every argument representable in W under the embedding?
     for s in steps {
@@ -162,14 +162,15 @@ fn replay_one<W: TW>(beh: &Value, m: i64, st: &mut ReplayStats, do_sweep: bool) 
         match outcome {
             Err(p) => { record(st, ty, "C09", beh, k, "panic", p, want_res.to_string()); return; }
             Ok(r) => {
-                if r != want_res { record(st, ty, "C09", beh, k, "result", r, want_res.to_string()); return; }
+                if r != want_res { record(st, ty, "C09", beh, k, "result", r.clone(), want_res.to_string()); if !c10_mode || r == "Ok" || want_res == "Ok" { return; } }
             }
         }
-        if got_ret != want_ret { record(st, ty, "C09", beh, k, "pop value", got_ret.to_string(), want_ret.to_string()); return; }
+        if got_ret != want_ret { record(st, ty, "C09", beh, k, "pop value", got_ret.to_string(), want_ret.to_string()); if !c10_mode { return; } }
         // observers
         if tree.len() != want_ws.len() { record(st, ty, "C09", beh, k, "len", tree.len().to_string(), want_ws.len().to_string()); return; }
-        if tree.is_empty() != want_ws.is_empty() { record(st, ty, "C09", beh, k, "is_empty", tree.is_empty().to_string(), want_ws.is_empty().to_string()); return; }
         let want_valid = s["valid"].as_bool().unwrap();
+        if !c10_mode {
+        if tree.is_empty() != want_ws.is_empty() { record(st, ty, "C09", beh, k, "is_empty", tree.is_empty().to_string(), want_ws.is_empty().to_string()); return; }
         if tree.is_valid() != want_valid { record(st, ty, "C09", beh, k, "is_valid", tree.is_valid().to_string(), want_valid.to_string()); return; }
         for (i, &wv) in want_ws.iter().enumerate() {
             match guarded(|| tree.get(i)) {
@@ -183,6 +184,7 @@ fn replay_one<W: TW>(beh: &Value, m: i64, st: &mut ReplayStats, do_sweep: bool) 
             Ok(fresh) => { if fresh != tree { record(st, ty, "C09", beh, k, "== new(list)", format!("{:?}", tree), format!("{:?}", fresh)); return; } }
             Err(e) => { record(st, ty, "C09", beh, k, "new(list) of a reachable list fails", err_name(&e).to_string(), "Ok".into()); return; }
         }
+        } // end of C09 observers (skipped in C10 mode: sampling is judged against the list the calls describe)
         // C10: sweep all targets of this state
         if do_sweep {
             let total_model: i64 = want_ws.iter().sum();
@@ -222,6 +224,7 @@ pub fn replay(args: &[String]) -> i32 {
     let m = arg_i64(args, "--m", 255);
     let do_sweep = !args.iter().any(|a| a == "--no-sweep");
     let only = arg_val(args, "--only");
+    let c10_mode = arg_val(args, "--prop").as_deref() == Some("C10");
     let pass = arg_val(args, "--passthrough");
     let mut passf = pass.map(|p| std::fs::File::create(p).unwrap());
     let mut st = ReplayStats::default();
@@ -238,7 +241,7 @@ pub fn replay(args: &[String]) -> i32 {
         st.behaviours += 1;
         if sample.is_none() || st.behaviours % 9973 == 0 { sample = Some(beh.clone()); }
         macro_rules! go { ($W:ident) => {
-            if only.as_deref().map(|o| o == <$W as TW>::NAME).unwrap_or(true) { replay_one::<$W>(&beh, m, &mut st, do_sweep); }
+            if only.as_deref().map(|o| o == <$W as TW>::NAME).unwrap_or(true) { replay_one::<$W>(&beh, m, &mut st, do_sweep, c10_mode); }
         } }
         crate::for_each_tw!(W, { go!(W); });
     }
@@ -345,8 +348,11 @@ fn drive_one<W: TW>(m: i64, seed: u64, nops: usize, maxlen: usize, small_max: i6
             if d.tree.is_valid() {
                 // total through get-sum is O(n); use a probe tree-independent route: random_range needs total.
                 // The total equals get-sum; compute it once here.
-                let mut tot: Option<W> = None;
-                for i in 0..d.tree.len() { let g = d.tree.get(i); tot = Some(match tot { None => g, Some(mut a) => { let _ = a.checked_add_assign(&g); a } }); }
+                let tot: Option<W> = guarded(|| {
+                    let mut tot: Option<W> = None;
+                    for i in 0..d.tree.len() { let g = d.tree.get(i); tot = Some(match tot { None => g, Some(mut a) => { let _ = a.checked_add_assign(&g); a } }); }
+                    tot
+                }).unwrap_or(None);
                 if let Some(tw) = tot {
                     let mut probe = ScriptRng::new(words, 3);
                     if let Ok(tt) = guarded(|| probe.random_range(W::ZERO..tw)) {
@@ -381,26 +387,26 @@ fn drive_float<F: TW + num_traits::Float>(seed: u64, ntrees: usize, out: &mut Ve
             F::from(mant * 10f64.powf(e)).unwrap()
         }).collect();
         if rnd.below(5) == 0 { let k = rnd.below(n as u64) as usize; ws[k] = F::zero(); }
-        let Ok(mut tree) = WeightedTreeIndex::<F>::new(ws.iter()) else { continue };
+        let Ok(Ok(mut tree)) = guarded(|| WeightedTreeIndex::<F>::new(ws.iter())) else { continue };
         // a short update history, so that states after updates are covered too
         let hist = rnd.below(4);
         for _ in 0..hist {
             match rnd.below(3) {
-                0 => { let w = ws[rnd.below(ws.len() as u64) as usize]; if tree.push(w).is_ok() { ws.push(w); } }
-                1 => { if ws.len() > 1 { tree.pop(); ws.pop(); } }
-                _ => { let i = rnd.below(ws.len() as u64) as usize; let w = ws[rnd.below(ws.len() as u64) as usize]; if tree.update(i, w).is_ok() { ws[i] = w; } }
+                0 => { let w = ws[rnd.below(ws.len() as u64) as usize]; if guarded(|| tree.push(w).is_ok()).unwrap_or(false) { ws.push(w); } }
+                1 => { if ws.len() > 1 { let _ = guarded(|| tree.pop()); ws.pop(); } }
+                _ => { let i = rnd.below(ws.len() as u64) as usize; let w = ws[rnd.below(ws.len() as u64) as usize]; if guarded(|| tree.update(i, w).is_ok()).unwrap_or(false) { ws[i] = w; } }
             }
         }
         let classes: [(&str, u64); 5] = [("ones", u64::MAX), ("zero", 0), ("top", u64::MAX << (12 + rnd.below(8))), ("half", 1 << 63), ("rand", rnd.next())];
         for (wc, word) in classes {
             let mut rng = ScriptRng::new(vec![word], 11);
-            let valid = tree.is_valid();
+            let valid = guarded(|| tree.is_valid()).unwrap_or(false);
             let r = guarded(|| tree.try_sample(&mut rng));
             let (res, idx) = match r { Ok(Ok(i)) => ("Ok".to_string(), i as i64), Ok(Err(e)) => (err_name(&e).to_string(), -1), Err(p) => (format!("Panic: {}", p), -1) };
-            let wpos = idx >= 0 && (idx as usize) < tree.len() && tree.get(idx as usize) > F::zero();
-            let cur: Vec<String> = (0..tree.len()).map(|i| bits(tree.get(i))).collect();
+            let wpos = idx >= 0 && (idx as usize) < tree.len() && guarded(|| tree.get(idx as usize) > F::zero()).unwrap_or(false);
+            let cur: Vec<String> = guarded(|| (0..tree.len()).map(|i| bits(tree.get(i))).collect()).unwrap_or_default();
             out.push(json!({"op": "fsample", "ty": F::NAME, "wc": wc, "res": res, "i": idx, "len": tree.len(),
-                "valid": valid, "wpos": wpos, "allzero": (0..tree.len()).all(|i| tree.get(i) == F::zero()), "words": rng.words(), "word": format!("{:#018x}", word),
+                "valid": valid, "wpos": wpos, "allzero": guarded(|| (0..tree.len()).all(|i| tree.get(i) == F::zero())).unwrap_or(false), "words": rng.words(), "word": format!("{:#018x}", word),
                 "built_from": ws.iter().map(|&w| bits(w)).collect::<Vec<_>>(), "weights_now": cur, "hist": hist}).to_string());
         }
     }
